@@ -109,6 +109,7 @@ pub enum Plan {
     Compound(Vec<Plan>),
     Chunk(ChunkPlan),
     Item(ItemPlan),
+    Fci(FciPlan),
 }
 
 // ---------------------------------------------------------------------------------------
@@ -246,7 +247,8 @@ fn plan_fci(f: &Fci, t: &mut Tape) -> FciPlan {
             let mut uniq: Vec<u32> = entries.iter().map(|e| e.0).collect();
             uniq.sort_unstable();
             uniq.dedup();
-            if uniq.len() != entries.len() {
+            // (and no history for the rare very large maps: the fix-up below is quadratic)
+            if uniq.len() != entries.len() || entries.len() > 512 {
                 return FciPlan::Fir(entries.clone());
             }
             // stale (ssrc, other sequence) adds, then shuffle the positions, then make sure the
@@ -399,6 +401,7 @@ pub fn plan_with(s: &Spec, t: &mut Tape) -> Plan {
         },
         Spec::ChunkOnly(c) => Plan::Chunk(plan_chunk(c, t)),
         Spec::ItemOnly(i) => Plan::Item(plan_item(i, t)),
+        Spec::FciOnly(f) => Plan::Fci(plan_fci(f, t)),
         other => Plan::Packet(plan_packet(other, t).expect("packet kind")),
     }
 }
@@ -508,6 +511,7 @@ pub fn model(p: &Plan) -> Spec {
         Plan::Compound(ms) => Spec::Compound { members: ms.iter().map(model).collect() },
         Plan::Chunk(c) => Spec::ChunkOnly(model_chunk(c)),
         Plan::Item(i) => Spec::ItemOnly(model_item(i)),
+        Plan::Fci(f) => Spec::FciOnly(model_fci(f)),
     }
 }
 
@@ -622,17 +626,21 @@ fn build_rpsi_static(steps: &[RpsiStep]) -> RpsiBuilder<'static> {
     b
 }
 
+fn build_fci_any<'a>(fci: &'a FciPlan) -> FciAny<'a> {
+    match fci {
+        FciPlan::Nack(v) => FciAny::Nack(build_nack(v)),
+        FciPlan::Fir(v) => FciAny::Fir(build_fir(v)),
+        FciPlan::Sli(v) => FciAny::Sli(build_sli(v)),
+        FciPlan::Rpsi(v) => FciAny::Rpsi(build_rpsi(v)),
+        FciPlan::Pli => FciAny::Pli(Pli::builder()),
+    }
+}
+
 fn collect_fcis<'a>(p: &'a Plan, out: &mut Vec<FciAny<'a>>) {
     match p {
         Plan::Packet(pp) | Plan::Pb(pp) => {
             if let Ctor::Fb { fci, owned: false, .. } = &pp.ctor {
-                out.push(match fci {
-                    FciPlan::Nack(v) => FciAny::Nack(build_nack(v)),
-                    FciPlan::Fir(v) => FciAny::Fir(build_fir(v)),
-                    FciPlan::Sli(v) => FciAny::Sli(build_sli(v)),
-                    FciPlan::Rpsi(v) => FciAny::Rpsi(build_rpsi(v)),
-                    FciPlan::Pli => FciAny::Pli(Pli::builder()),
-                });
+                out.push(build_fci_any(fci));
             }
         }
         Plan::Compound(ms) => ms.iter().for_each(|m| collect_fcis(m, out)),
@@ -658,6 +666,8 @@ pub enum Concrete<'a> {
     Pb(PacketBuilder<'a>),
     Chunk(SdesChunkBuilder<'a>),
     Item(SdesItemBuilder<'a>),
+    /// a stand-alone FCI builder (a public `RtcpPacketWriter` of its own)
+    Fci(FciAny<'a>),
 }
 
 fn build_rb(p: &RbPlan) -> ReportBlockBuilder {
@@ -871,13 +881,14 @@ fn build<'a>(p: &'a Plan, fcis: &'a [FciAny<'a>], next_fci: &mut usize) -> Concr
                     Concrete::Compound(b) => cb.add_packet(b),
                     Concrete::Pb(b) => cb.add_packet(b),
                     // part builders are not packet writers; the spec generator never nests them
-                    Concrete::Chunk(_) | Concrete::Item(_) => cb,
+                    Concrete::Chunk(_) | Concrete::Item(_) | Concrete::Fci(_) => cb,
                 };
             }
             Concrete::Compound(cb)
         }
         Plan::Chunk(c) => Concrete::Chunk(build_chunk(c)),
         Plan::Item(i) => Concrete::Item(build_item(i)),
+        Plan::Fci(f) => Concrete::Fci(build_fci_any(f)),
     }
 }
 
@@ -898,6 +909,11 @@ impl<'a> Concrete<'a> {
             Concrete::Third(b) => b,
             Concrete::Compound(b) => b,
             Concrete::Pb(b) => b,
+            Concrete::Fci(FciAny::Nack(b)) => b,
+            Concrete::Fci(FciAny::Fir(b)) => b,
+            Concrete::Fci(FciAny::Sli(b)) => b,
+            Concrete::Fci(FciAny::Rpsi(b)) => b,
+            Concrete::Fci(FciAny::Pli(b)) => b,
             Concrete::Chunk(_) | Concrete::Item(_) => return None,
         })
     }
@@ -926,6 +942,11 @@ impl<'a> Concrete<'a> {
             Concrete::Pb(b) => b.write_into(buf),
             Concrete::Chunk(b) => b.write_into(buf),
             Concrete::Item(b) => b.write_into(buf),
+            Concrete::Fci(FciAny::Nack(b)) => b.write_into(buf),
+            Concrete::Fci(FciAny::Fir(b)) => b.write_into(buf),
+            Concrete::Fci(FciAny::Sli(b)) => b.write_into(buf),
+            Concrete::Fci(FciAny::Rpsi(b)) => b.write_into(buf),
+            Concrete::Fci(FciAny::Pli(b)) => b.write_into(buf),
         }
     }
 
